@@ -57,8 +57,11 @@ static string mem_of(const W& w) {
 }
 
 static const char* OPS_INT[] = {"ctor", "assign", "store", "store_raw", "+=", "-=", "*=", "/=", "%=", "&=", "|=", "^=",
-    "<<=", ">>=", "++x", "x++", "--x", "x--"};
-static const char* OPS_FLT[] = {"ctor", "assign", "store", "+=", "-=", "*=", "/=", "++x", "x++", "--x", "x--"};
+    "<<=", ">>=", "++x", "x++", "--x", "x--",
+    // the assignment operators yield the object itself (an lvalue), as for a native variable: assigning to the result
+    // of `x op= b` changes x
+    "chain=", "chain+=", "chain-=", "chain*=", "chain&=", "chain|=", "chain^=", "chain<<=", "chain>>="};
+static const char* OPS_FLT[] = {"ctor", "assign", "store", "+=", "-=", "*=", "/=", "++x", "x++", "--x", "x--", "chain=", "chain+=", "chain-=", "chain*="};
 
 // applies op to wrapper x (initially a) and native n (initially a); returns false if the case must be skipped
 template <typename W, typename T, typename S>
@@ -107,6 +110,45 @@ static bool apply(const string& op, W& x, T& n, T a, T b, uint64_t& wret, uint64
     T r2 = n--;
     wret = bits_of(r1);
     nret = bits_of(r2);
+  } else if (op.rfind("chain", 0) == 0) {
+    // (x op= b) = c  with c derived from the operands; skipped where the first step is undefined for the native type
+    T c;
+    if constexpr (std::is_floating_point_v<T>) c = b + (T)1;
+    else c = (T)(b ^ (T)0x5A);
+    string inner = op.substr(5);
+#define CHAIN(OPSTR, OP)                   \
+  if (inner == OPSTR) {                    \
+    T r1 = ((x OP b) = c);                 \
+    T r2 = ((n OP b) = c);                 \
+    wret = bits_of(r1);                    \
+    nret = bits_of(r2);                    \
+    return true;                           \
+  }
+    CHAIN("=", =)
+    CHAIN("+=", +=)
+    CHAIN("-=", -=)
+    CHAIN("*=", *=)
+    if constexpr (std::is_integral_v<T>) {
+      CHAIN("&=", &=)
+      CHAIN("|=", |=)
+      CHAIN("^=", ^=)
+      if (inner == "<<=" || inner == ">>=") {
+        int sh = (int)((uint64_t)b % (sizeof(T) < 4 ? 32 : sizeof(T) * 8));
+        if (inner == "<<=") {
+          T r1 = ((x <<= sh) = c);
+          T r2 = ((n <<= sh) = c);
+          wret = bits_of(r1);
+          nret = bits_of(r2);
+        } else {
+          T r1 = ((x >>= sh) = c);
+          T r2 = ((n >>= sh) = c);
+          wret = bits_of(r1);
+          nret = bits_of(r2);
+        }
+        return true;
+      }
+    }
+    return false;
   } else {
 #define BIN(OPSTR, OP)           \
   if (op == OPSTR) {             \
@@ -210,7 +252,7 @@ static void wrapper_cases(const string& type, const string& ord, vt::Rng& r, int
     }
     B.push_back(x);
   }
-  int nops = fl ? 11 : 18;
+  int nops = fl ? 15 : 27;
   for (int oi = 0; oi < nops; oi++) {
     string op = fl ? OPS_FLT[oi] : OPS_INT[oi];
     bool unary = op == "++x" || op == "x++" || op == "--x" || op == "x--";
